@@ -10,8 +10,15 @@
         ordered per connection in the code) and the client side (responses);
      3. the monitors of C01 and C02 hold on the recorded log itself;
      4. the padding the server drew lies in the range the code draws from. *)
-From Hy Require Import lib.Harness gen.ParamsC01 model.C01_ServerAuth.
+From Hy Require Import gen.ParamsC01 model.C01_ServerAuth.
 Local Open Scope N_scope.
+
+(* indices of the cases on which the check function says false (as in lib/Harness.v) *)
+Fixpoint mism_from {A} (chk : A -> bool) (i : nat) (l : list A) : list nat :=
+  match l with
+  | [] => []
+  | c :: t => if chk c then mism_from chk (S i) t else i :: mism_from chk (S i) t
+  end.
 
 Definition pad_of (n : N) : str := repeat x70 (N.to_nat n).
 
